@@ -137,11 +137,53 @@ pub proof fn lemma_reverse_is_forward(es: Set<(usize, usize)>, o: Seq<usize>, r:
     }
 }
 
+/// a cycle is reachable from node
+pub open spec fn cycle_reachable(es: Set<(usize, usize)>, node: usize) -> bool {
+    exists|v: usize| path(es, node, v) && #[trigger] path_plus(es, v, v)
+}
+
+/// bookkeeping invariant of the marking DFS used by is_acyclic: permanently marked vertices are
+/// closed under successors and lie on no cycle
+pub open spec fn acy_inv(vs: Set<usize>, es: Set<(usize, usize)>, perm: Set<usize>, temp: Set<usize>) -> bool {
+    &&& perm.subset_of(vs) && temp.subset_of(vs) && perm.disjoint(temp)
+    &&& forall|a: usize, b: usize| #![trigger es.contains((a, b))] perm.contains(a) && es.contains((a, b)) ==> perm.contains(b)
+    &&& forall|p: usize| #![trigger perm.contains(p)] perm.contains(p) ==> !path_plus(es, p, p)
+}
+
+/// a set closed under edges that does not contain x contains nothing that reaches x
+pub proof fn lemma_closed_no_path_out(es: Set<(usize, usize)>, s: Set<usize>, a: usize, x: usize)
+    requires
+        s.contains(a), !s.contains(x), path(es, a, x),
+        forall|u: usize, w: usize| #![trigger es.contains((u, w))] s.contains(u) && es.contains((u, w)) ==> s.contains(w),
+    ensures false,
+{
+    let f = |v: usize| s.contains(v);
+    lemma_path_closed(es, f, a, x);
+}
+
 impl<V, E> Graph<V, E>
 where
     V: Vertex,
     E: Edge,
 {
+    /// precondition of `dfs_is_acyclic(graph, node, permanent_marks, temporary_marks)`
+    pub open spec fn acy_dfs_pre(&self, node: usize, perm: Set<usize>, temp: Set<usize>) -> bool {
+        &&& self.graph_wf()
+        &&& self.vertices@.contains_key(node)
+        &&& acy_inv(self.vertices@.dom(), self.edges@.dom(), perm, temp)
+        &&& forall|t: usize| #![trigger temp.contains(t)] temp.contains(t) ==> path_plus(self.edges@.dom(), t, node)
+    }
+
+    /// postcondition of `dfs_is_acyclic`
+    pub open spec fn acy_dfs_post(&self, node: usize, perm0: Set<usize>, temp0: Set<usize>, perm: Set<usize>, temp: Set<usize>, res: bool) -> bool {
+        &&& res ==> {
+            &&& acy_inv(self.vertices@.dom(), self.edges@.dom(), perm, temp)
+            &&& temp == temp0
+            &&& perm0.subset_of(perm) && perm.contains(node)
+        }
+        &&& !res ==> cycle_reachable(self.edges@.dom(), node)
+    }
+
     /// precondition of topological `dfs_walk(graph, node, permanent_marks, temporary_marks, order)`
     pub open spec fn topo_dfs_pre(&self, node: usize, perm: Set<usize>, temp: Set<usize>, order: Seq<usize>) -> bool {
         &&& self.graph_wf()
@@ -621,6 +663,97 @@ where
             }
             lemma_forward_acyclic(es, out__@);
         }
+    }
+//@ end
+
+
+//@ fn impl<V, E> Graph<V, E> :: fn is_acyclic loops=1
+//@ rewrite 1 `temporary_marks: &mut FxHashSet<usize>, ) -> bool {` => `temporary_marks: &mut FxHashSet<usize>, ) -> (res: bool) requires graph.acy_dfs_pre(node, old(permanent_marks)@, old(temporary_marks)@), ensures /*@post*/ graph.acy_dfs_post(node, old(permanent_marks)@, old(temporary_marks)@, final(permanent_marks)@, final(temporary_marks)@, res), decreases graph.vertices@.dom().len() - old(permanent_marks)@.len() - old(temporary_marks)@.len(), {` ## R-nested-contract: attaches requires / ensures / decreases (defined as spec fns in the template) to the signature of the nested fn; executable tokens unchanged apart from naming the result
+//@ rewrite 1 `let successors_are_acyclic = graph` => `let mut successors_are_acyclic = true; for successor in it: graph` ## R-all: `let b = ITER.all(|x| { P });` is by definition `let mut b = true; for x in ITER { if !{ P } { b = false; break; } }` (short-circuiting; part 1 of 3; ITER and P stay the original tokens; Verus has no model of a closure that captures `&mut` state and recurses)
+//@ rewrite 1 `.all(|successor| {` => `{ if !{` ## R-all: part 2 of 3
+//@ rewrite 1 `) });` => `) } { successors_are_acyclic = false; break; } }` ## R-all: part 3 of 3
+//@ spec
+    requires self.graph_wf(), self.vertices@.contains_key(root),
+    ensures
+        /*@iff*/ r == acyclic_from(self.edges@.dom(), root),
+//@ before 0 `return false; } temporary_marks.insert(node);`
+    proof {
+        lemma_path_refl(graph.edges@.dom(), node);
+        assert(path_plus(graph.edges@.dom(), node, node));
+    }
+//@ after 0 `temporary_marks.insert(node);`
+    proof {
+        lemma_disjoint_subsets_len(permanent_marks@, temporary_marks@, graph.vertices@.dom());
+    }
+//@ loop 0
+    invariant
+        graph.graph_wf(), graph.vertices@.contains_key(node),
+        seq_lists_set_ref(it.seq(), graph.successors@[node]@),
+        !old(temporary_marks)@.contains(node), !old(permanent_marks)@.contains(node),
+        forall|t: usize| #![trigger old(temporary_marks)@.contains(t)] old(temporary_marks)@.contains(t) ==> path_plus(graph.edges@.dom(), t, node),
+        old(permanent_marks)@.len() + old(temporary_marks)@.len() + 1 <= graph.vertices@.dom().len(),
+    invariant_except_break
+        successors_are_acyclic,
+        acy_inv(graph.vertices@.dom(), graph.edges@.dom(), permanent_marks@, temporary_marks@),
+        temporary_marks@ == old(temporary_marks)@.insert(node),
+        old(permanent_marks)@.subset_of(permanent_marks@),
+        forall|j: int| 0 <= j < it.index@ ==> permanent_marks@.contains(*#[trigger] it.seq()[j]),
+        forall|w: usize| #![trigger graph.edges@.contains_key((node, w))] it.index@ == it.seq().len() && graph.edges@.contains_key((node, w)) ==> permanent_marks@.contains(w),
+    ensures
+        successors_are_acyclic ==> acy_inv(graph.vertices@.dom(), graph.edges@.dom(), permanent_marks@, temporary_marks@)
+            && temporary_marks@ == old(temporary_marks)@.insert(node) && old(permanent_marks)@.subset_of(permanent_marks@)
+            && (forall|w: usize| #![trigger graph.edges@.contains_key((node, w))] graph.edges@.contains_key((node, w)) ==> permanent_marks@.contains(w)),
+        !successors_are_acyclic ==> cycle_reachable(graph.edges@.dom(), node),
+//@ before 0 `if !{ dfs_is_acyclic(graph, *successor, permanent_marks, temporary_marks) }`
+    let ghost pm1 = permanent_marks@;
+    proof {
+        let es = graph.edges@.dom();
+        lemma_seq_lists_set_ref(it.seq(), graph.successors@[node]@);
+        assert(graph.successors@[node]@.contains(*successor));
+        assert(graph.edges@.contains_key((node, *successor)));
+        lemma_path_edge(es, node, *successor);
+        assert forall|t: usize| #![trigger temporary_marks@.contains(t)] temporary_marks@.contains(t) implies path_plus(es, t, *successor) by {
+            if t != node {
+                lemma_path_plus_trans_l(es, t, node, *successor);
+            }
+        }
+        vstd::set_lib::lemma_len_subset(old(permanent_marks)@, pm1);
+        lemma_disjoint_subsets_len(pm1, temporary_marks@, graph.vertices@.dom());
+    }
+//@ before 0 `successors_are_acyclic = false; break;`
+    proof {
+        let es = graph.edges@.dom();
+        let v = choose|v: usize| path(es, *successor, v) && #[trigger] path_plus(es, v, v);
+        lemma_path_trans(es, node, *successor, v);
+        assert(path(es, node, v) && path_plus(es, v, v));
+    }
+//@ after 0 `{ successors_are_acyclic = false; break; }`
+    proof {
+        assert forall|w: usize| #![trigger graph.edges@.contains_key((node, w))] it.index@ + 1 == it.seq().len() && graph.edges@.contains_key((node, w)) implies permanent_marks@.contains(w) by {
+            assert(graph.successors@[node]@.contains(w));
+            let j = choose|j: int| 0 <= j < it.seq().len() && *#[trigger] it.seq()[j] == w;
+            if j < it.index@ { assert(pm1.contains(*it.seq()[j])); }
+        }
+    }
+//@ before 0 `temporary_marks.remove(&node);`
+    let ghost pml = permanent_marks@;
+//@ after 0 `permanent_marks.insert(node);`
+    proof {
+        let es = graph.edges@.dom();
+        assert(temporary_marks@ =~= old(temporary_marks)@);
+        assert(!pml.contains(node));
+        // node lies on no cycle: a cycle would leave node through a permanently marked successor,
+        // and the permanently marked set is closed and does not contain node
+        if path_plus(es, node, node) {
+            lemma_path_plus_first(es, node, node);
+            let w = choose|w: usize| es.contains((node, w)) && path(es, w, node);
+            assert(graph.edges@.contains_key((node, w)));
+            lemma_closed_no_path_out(es, pml, w, node);
+        }
+    }
+//@ before 0 `dfs_is_acyclic(self, root, &mut permanent_marks, &mut temporary_marks)`
+    proof {
+        assert(acy_inv(self.vertices@.dom(), self.edges@.dom(), permanent_marks@, temporary_marks@));
     }
 //@ end
 
